@@ -76,21 +76,44 @@ impl<'key, 'data> MultipartBuilder<'key, 'data> {
 
     /// Creates a `Multipart` to be used as a body.
     pub fn build(self) -> Result<Multipart<'data>> {
-        let mut mp = crate::multipart_crate::lazy::Multipart::new();
-        for (k, v) in self.text {
-            mp.add_text(k, v);
-        }
-        for file in self.files {
-            mp.add_stream(file.name, Cursor::new(file.file), file.filename, file.mime);
-        }
-        let prepared = mp.prepare().map_err::<IoError, _>(Into::into)?;
-        Ok(Multipart { data: prepared })
+        let mut multipart = Multipart {
+            text: self.text.into_iter().map(|(k, v)| (k.to_owned(), v)).collect(),
+            files: self
+                .files
+                .into_iter()
+                .map(|file| (file.name.to_owned(), file.file, file.filename.map(str::to_owned), file.mime))
+                .collect(),
+            boundary: String::new(),
+        };
+        multipart.boundary = multipart.prepare(None)?.boundary().to_owned();
+        Ok(multipart)
     }
 }
 
 /// A multipart form created using `MultipartBuilder`.
 pub struct Multipart<'data> {
-    data: crate::multipart_crate::lazy::PreparedFields<'data>,
+    text: Vec<(String, &'data str)>,
+    files: Vec<(String, &'data [u8], Option<String>, Option<Mime>)>,
+    boundary: String,
+}
+
+impl<'data> Multipart<'data> {
+    /// Serializes the form, under a fresh boundary or under the one given. The body may be written
+    /// more than once (redirects, a prepared request sent again): it is serialized anew each time.
+    fn prepare(&self, boundary: Option<&str>) -> IoResult<crate::multipart_crate::lazy::PreparedFields<'data>> {
+        let mut mp = crate::multipart_crate::lazy::Multipart::new();
+        for (k, v) in &self.text {
+            mp.add_text(k.as_str(), *v);
+        }
+        for (name, file, filename, mime) in &self.files {
+            mp.add_stream(name.as_str(), Cursor::new(*file), filename.as_deref(), mime.clone());
+        }
+        match boundary {
+            Some(boundary) => mp.prepare_with_boundary(boundary),
+            None => mp.prepare(),
+        }
+        .map_err::<IoError, _>(Into::into)
+    }
 }
 
 impl Body for Multipart<'_> {
@@ -99,12 +122,13 @@ impl Body for Multipart<'_> {
     }
 
     fn write<W: Write>(&mut self, mut writer: W) -> IoResult<()> {
-        copy(&mut self.data, &mut writer)?;
+        let mut data = self.prepare(Some(&self.boundary))?;
+        copy(&mut data, &mut writer)?;
         Ok(())
     }
 
     fn content_type(&mut self) -> IoResult<Option<String>> {
-        Ok(Some(format!("multipart/form-data; boundary={}", self.data.boundary())))
+        Ok(Some(format!("multipart/form-data; boundary={}", self.boundary)))
     }
 }
 
